@@ -215,7 +215,7 @@ pub fn install_hooks() {
         assert!(ok, "verif hooks already installed");
         let default = std::panic::take_hook();
         std::panic::set_hook(Box::new(move |info| {
-            if QUIET.with(|q| q.get()) {
+            if QUIET.with(|q| q.get()) && std::env::var_os("DSIM_LOUD").is_none() {
                 let loc = info
                     .location()
                     .map(|l| format!("{}:{}", l.file(), l.line()))
@@ -654,6 +654,7 @@ pub struct SimInfo<'a> {
 }
 
 struct Actor {
+    own_resumes: u64,
     co: Option<Co>,
     state: AState,
     waker: Arc<ActorWaker>,
@@ -783,6 +784,7 @@ impl Sim {
             body();
         });
         self.actors.push(Actor {
+            own_resumes: 0,
             co: Some(co),
             state: AState::Ready,
             waker,
@@ -808,6 +810,7 @@ impl Sim {
         for (i, a) in self.actors.iter().enumerate() {
             let ok = match a.state {
                 AState::Ready => true,
+                // blocked on a lock: runnable again once some *other* actor has moved
                 AState::LockBusy(epoch) => self.progress > epoch,
                 AState::Pending => a.waker.flag.load(Ordering::SeqCst),
                 AState::Done => false,
@@ -828,7 +831,11 @@ impl Sim {
         tls(|t| t.cur = i);
         let res = co.resume(r);
         tls(|t| t.cur = CONTROLLER);
-        self.progress += 1;
+        self.actors[i].own_resumes += 1;
+        // `progress` counts steps that did something other than spinning on a lock
+        if !matches!(res, CoroutineResult::Yield(Yield::LockBusy(_))) {
+            self.progress += 1;
+        }
         if self.last_actor != Some(i) && self.last_actor.is_some() {
             self.stats.switches += 1;
         }
@@ -1093,6 +1100,9 @@ impl Sim {
                 last_yield = self.resume(a, Resume::Go);
             }
         }
+        if let Decision::Run(a) = d {
+            trace!("sched: A{} -> {:?}", a, last_yield);
+        }
         // interleaving fingerprint: who moved and where it stopped
         match d {
             Decision::Run(a) | Decision::Cancel(a) | Decision::Spurious(a) => {
@@ -1169,6 +1179,21 @@ impl Sim {
             .filter(|(_, a)| a.state == AState::Pending)
             .map(|(i, _)| i)
             .collect()
+    }
+
+    /// Leaks coroutines that could not be driven to completion (never force-unwinds
+    /// a stack that may be in an inconsistent state after a violation).
+    pub fn abandon_unfinished(&mut self) -> usize {
+        let mut n = 0;
+        for a in self.actors.iter_mut() {
+            if let Some(co) = a.co.take() {
+                if co.started() && !co.done() {
+                    std::mem::forget(co);
+                    n += 1;
+                }
+            }
+        }
+        n
     }
 
     pub fn n_actors(&self) -> usize {
